@@ -5,3 +5,8 @@ SPEC = connspec.spec('C09', 'check_C09', {40: 'device_set_up_although_ship_id_di
 SPEC["streams"] = [dict(imports="From Ship Require Import Base HubModel HubStreams.", case_type="c10_case", check_fn="check_hub_C09",
                         drivers=[dict(bin="hubunit", args=["-prop", "C10"], n_quick=800, n_thorough=20000, timeout=2400)], codes={118: "connection_created_with_wrong_ship_id"})]
 SPEC["props_extra"] = ["props/C09_hub.v"]
+
+# the hub's pass-through of the id report and the setup callback (coq/theories/RegRace.v, hid_case)
+SPEC["streams"] += [dict(imports="From Ship Require Import Base RegRace.", case_type="hid_case", check_fn="check_hubid",
+                         drivers=[dict(bin="hubunit", args=["-prop", "C09hub"], n_quick=150, n_thorough=2000)],
+                         codes={141: "application_told_ship_id_after_setup", 142: "application_told_ship_id_not_exactly_once"})]
